@@ -17,7 +17,7 @@ SPEC = {
     "build_comp": "fwrules",
     "props": ["props/C16.v"],
     "corr": ["corr/Firewall_corr.v"],
-    "comps": [{"comp": "fwrules", "n_quick": 800, "n_thorough": 20000}, {"comp": "sysmon_C16", "e2e": True, "n_quick": 12, "n_thorough": 150}],
+    "comps": [{"comp": "fwrules", "n_quick": 500, "n_thorough": 20000}, {"comp": "sysmon_C16", "e2e": True, "n_quick": 12, "n_thorough": 150}],
     "trusted": ["model/Firewall.v add_rule/table_match/drop_ct are hand-written mirrors of Firewall.AddRule/FirewallTable.match/Firewall.Drop (tied by correspondence)",
                 "lib/Ip.v models bart.Lite / bart.Table as prefix sets with contains / longest-prefix-match / supernets semantics",
                 "gen/Consts_Firewall.v is printed from firewall/packet.go constants by the harness"],
